@@ -98,8 +98,14 @@ let parse_state (line : string) : cstate =
 
 let show_spos (p : spos) = string_of_str (fen_of true p)
 
+(* the full-move number is a std::size_t in the C++ and an unbounded N in M and S: the tie is "C++ counter = model counter
+   mod 2^64" (coq/CounterWrap.v: wrap64, proved to be a simulation of the machine's wrapping += / -=).  The identity below
+   2^64, i.e. everywhere except on the scripts and starts that cross the wrap on purpose. *)
+let w64 : n = n_of_dec "18446744073709551616"
+let wrap64 (x : n) : n = N.modulo x w64
+
 let same_model_state (a : position) (b : position) : bool =
-  a.brd = b.brd && a.halfmove = b.halfmove && a.fullmove = b.fullmove && a.ep = b.ep && a.hash = b.hash
+  a.brd = b.brd && a.halfmove = b.halfmove && a.fullmove = wrap64 b.fullmove && a.ep = b.ep && a.hash = b.hash
   && a.c0 = b.c0 && a.c1 = b.c1 && a.c2 = b.c2 && a.c3 = b.c3 && a.to_move = b.to_move
   && ((not a.c0) || a.r0 = b.r0) && ((not a.c1) || a.r1 = b.r1) && ((not a.c2) || a.r2 = b.r2) && ((not a.c3) || a.r3 = b.r3)
 
@@ -110,8 +116,9 @@ let obs_state ?(want_valid = true) (s : sess) : cstate =
   let c = get_state s in
   let n = cur s in
   let a = abs c.cp in
-  if a <> n.sg.g_cur then
-    fail_spec "state: C++ position %s differs from the position prescribed by the rules %s" (show_spos a) (show_spos n.sg.g_cur);
+  let want = { n.sg.g_cur with s_full = wrap64 n.sg.g_cur.s_full } in
+  if a <> want then
+    fail_spec "state: C++ position %s differs from the position prescribed by the rules %s (full-move number modulo 2^64)" (show_spos a) (show_spos want);
   if c.chash <> c.ccalc then fail_spec "hash() %s <> calculate_hash() %s" (hex_of_n c.chash) (hex_of_n c.ccalc);
   if want_valid && not c.cvalid then fail_spec "valid() is false on a legal history";
   if not (same_model_state c.cp n.mp) then fail_model "state: C++ raw state differs from the model's";
